@@ -40,6 +40,12 @@ func runC12(c *Check) error {
 		"every node kind of pkg/ast/node.go (read from the current source): every child slot present or absent (full product up to 6 child slots, otherwise all-present, all-absent, each single slot absent, each single slot present), lists of length 0 (nil and empty), 1, 2; the marker children are of four different leaf kinds (Identifier, ScalarLnumber, NamePart, ScalarMagicConstant)")
 	c.Assumptions = append(c.Assumptions, stdAssumptions...)
 	c.ExploreNeeds(needs, nil)
+	nested, err := kindJobs(c, "H_C12_Nested", "nested", nil)
+	if err != nil {
+		return err
+	}
+	c.ExploreNeeds(nested, nil)
+	c.Bounds = append(c.Bounds, "every node kind again with nodes of the same kind as children: two levels deep through one child position and one level through another, both positions symbolic (a visitor method re-entered while its own invocation is pending)")
 	K0, K1, K2, vers := 3, 2, 2, "7.4,5.6"
 	if c.Tier == "thorough" {
 		K0, K1, K2, vers = 4, 3, 3, "7.4,5.6"
